@@ -21,7 +21,7 @@ META = {
             "true ones, mapping/reverse_mapping are inverse bijections on exactly the reported variables, refresh() keeps the function and makes everything exact, every "
             "enumerated / reduced form is checked against the model's table through the mapping with ancillas strictly above every mapped label, and constraint ancilla "
             "names are never reused.",
-    "note": "Bounded: 4 labels, edit depth 3/4, small coefficient values. set_mapping is user-supplied relabelling and not in the statement's edit list.",
+    "note": "Bounded: 4 labels, edit depth 3/4, small coefficient values. set_mapping is not in the statement's edit list; it is in the menu anyway (cyclic shift of the current enumeration), because later edits must keep the mapping a bijection.",
 }
 
 LAB = ["a", "b", "c", "d"]
@@ -67,6 +67,7 @@ def alphabet(typ):
             ["update", [[[0, 1], 1], [[2], 0]]], ["update", [[[3], 2]]], ["clear"], ["refresh"], ["copy"]]
     if typ in LABELLED:
         ops.append(["convert"])     # call every conversion and throw the results away: later states must not depend on it
+        ops.append(["setmap"])      # user-chosen enumeration (documented set_mapping): later edits must keep the mapping a bijection
     if typ in ("PCBO", "PCSO"):
         ops += [["con", i] for i in range(len(CONSTRAINTS))]
     return ops
@@ -262,6 +263,12 @@ def make_step(typ, with_forms=True):
                     if type(r) is not type(M) or dict(r) != dict(M):
                         v("copy", "copy() gives %s" % short(r))
                     M = r
+            elif name == "setmap":
+                def f(M=M):
+                    mp = M.mapping
+                    if len(mp) >= 2 and sorted(mp.values()) == list(range(len(mp))):
+                        gen.permute_mapping(M, "setmap")
+                r, _w = call(f)
             elif name == "convert":
                 def f(M=M):
                     for t in ("to_pubo", "to_puso", "to_qubo", "to_quso", "to_enumerated"):
